@@ -242,6 +242,22 @@ def verify_block(points):
         else:
             instrs.append(p)
     n = len(instrs)
+    # jumps that were emitted with a relative distance instead of a label (distances count
+    # instructions, labels take no room): turned into jumps to the instruction they reach
+    for k, ins in enumerate(instrs):
+        if ins[0] == "op" and ins[1] in ("Jmp", "JmpCond"):
+            f = ins[2]
+            try:
+                d = f[-1].concrete()
+                bits = f[-1].bv.size()
+                d = d - (1 << bits) if d >= 1 << (bits - 1) else d
+            except Exception:
+                return f"relative jump at {k} with a symbolic distance"
+            lab = ("rel", k)
+            labels[lab] = k + 1 + d
+            if not 0 <= labels[lab] <= n:
+                return f"relative jump at {k} leaves the block"
+            instrs[k] = ("jmp", lab) if ins[1] == "Jmp" else ("jmpcond", None, lab)
     effect = {"Push": (0, 1), "Pop": (1, 0), "Test": (1, 1), "Dup": (1, 2), "Not": (1, 1), "Neg": (1, 1), "Index": (2, 1), "Access": (2, 1)}
     for b in ("Or", "And", "Add", "Sub", "Mul", "Div", "Mod", "Lt", "Le", "Eq", "Ne", "Ge", "Gt", "In"):
         effect[b] = (2, 1)
